@@ -7,6 +7,8 @@ directly.  Exhaustive part: BFS over reachable control states through the real
 simulator (states re-reached by replaying the shortest offer prefix from reset).
 """
 
+import traceback
+
 PROPERTY = "C17"
 LEVEL = "exploration"
 RULE = ("case = one simulated cycle of a real queue under protocol-legal offers (enq?, unique msg id, deq?) judged on "
@@ -311,7 +313,8 @@ def plan(tier, seed):
 def thresholds(tier):
   n = len(configs(tier))
   t = {"configs_explored": n, "exhaustive_sets_complete": n - 5, "cycles_judged": 30000, "messages_delivered": 8000,
-       "count_checks": 10000, "resets_midrun": 50, "pipe_enq_when_full": 200, "bypass_deq_when_empty": 200}
+       "count_checks": 10000, "resets_midrun": 50, "pipe_enq_when_full": 200, "bypass_deq_when_empty": 200,
+       "mixed_system_runs": 100, "mixed_messages_delivered": 1000}
   if tier == "thorough":
     t.update({"cycles_judged": 800000, "messages_delivered": 200000})
   return t
@@ -397,8 +400,125 @@ def run_rand(sh, cfg, pg, etype, cycles):
   return hist
 
 
+MIXED_SRC = """
+from pymtl3 import *
+from pymtl3.stdlib.ifcs import SendIfcRTL
+from pymtl3.stdlib.queues import NormalQueueRTL, PipeQueueRTL, BypassQueueRTL, NormalQueueCL, PipeQueueCL, BypassQueueCL
+class ProdCL(Component):
+  # a cycle-level producer that keeps ONE payload object and refreshes it in place for every message
+  def construct(s, offer):
+    s.send = CallerIfcCL()
+    s.payload = [Bits16(0)]
+    s.loaded = False; s.idx = 0; s.accepted = []; s.cyc = 0
+    @update_once
+    def up_prod():
+      s.cyc += 1
+      if s.cyc < 5: return
+      if not s.loaded and offer[s.cyc % len(offer)]:
+        s.payload[0] @= 0x100 + s.idx
+        s.loaded = True
+      if s.loaded and s.send.rdy():
+        s.send(s.payload[0])
+        s.accepted.append(int(s.payload[0]))
+        s.idx += 1; s.loaded = False
+class TopCL2RTL(Component):
+  # ProdCL -> (stock CL->RTL adapter) -> RTL queue -> consumer with stalls
+  def construct(s, Q, n, offer, stall):
+    s.prod = ProdCL(offer)
+    s.q = Q(Bits16, num_entries=n)
+    connect(s.prod.send, s.q.enq)
+    s.cyc = 0; s.delivered = []
+    @update_once
+    def up_cons():
+      s.q.deq.en @= 0
+      if s.q.deq.rdy and not stall[s.cyc % len(stall)]:
+        s.q.deq.en @= 1
+        s.delivered.append(int(s.q.deq.ret))
+      s.cyc += 1
+class ProdRTL(Component):
+  def construct(s):
+    s.send = SendIfcRTL(Bits16)
+    s.cnt = Wire(Bits16)
+    s.go = InPort(1)
+    @update
+    def up():
+      s.send.en @= s.send.rdy & s.go & ~s.reset
+      s.send.msg @= s.cnt + 0x100
+    @update_ff
+    def ff():
+      if s.reset: s.cnt <<= 0
+      elif s.send.en: s.cnt <<= s.cnt + 1
+class TopRTL2CL(Component):
+  # RTL producer -> (stock RTL->CL adapter) -> CL queue -> consumer with stalls
+  def construct(s, Q, n, stall):
+    s.go = InPort(1)
+    s.p = ProdRTL(); s.p.go //= s.go
+    s.q = Q(num_entries=n)
+    connect(s.p.send, s.q.enq)
+    s.cyc = 0; s.delivered = []
+    @update_once
+    def up_cons():
+      s.cyc += 1
+      if s.q.deq.rdy() and not stall[s.cyc % len(stall)]:
+        s.delivered.append(int(s.q.deq()))
+"""
+
+
+def run_mixed(sh, case):
+  """whole systems built with the library's own adapters: what is delivered is exactly what was accepted, in order"""
+  import importlib, types as _t
+  from pymtl3 import DefaultPassGroup
+  rng = sh.rng("mixed", case)
+  from vlib import specgen as G
+  mod = G.load_source(MIXED_SRC, "c17mixed")
+  kind = rng.choice(["Normal", "Pipe", "Bypass"])
+  n = rng.randrange(1, 5)
+  L = rng.randrange(5, 12)
+  stall = [rng.random() < rng.choice([0.2, 0.6, 0.85]) for _ in range(L)]
+  if all(stall): stall[0] = False
+  shape = rng.choice(["cl2rtl", "rtl2cl"])
+  ncyc = rng.randrange(40, 120)
+  try:
+    if shape == "cl2rtl":
+      offer = [rng.random() < 0.8 for _ in range(rng.randrange(3, 9))]
+      if not any(offer): offer[0] = True
+      top = mod.TopCL2RTL(getattr(mod, kind + "QueueRTL"), n, offer, stall)
+      top.elaborate(); top.apply(DefaultPassGroup()); top.sim_reset()
+      for _ in range(ncyc): top.sim_tick()
+      accepted, delivered = list(top.prod.accepted), list(top.delivered)
+    else:
+      top = mod.TopRTL2CL(getattr(mod, kind + "QueueCL"), n, stall)
+      top.elaborate(); top.apply(DefaultPassGroup()); top.sim_reset()
+      sent = 0
+      for _ in range(ncyc):
+        top.go @= int(rng.random() < 0.8)
+        top.sim_tick()
+      delivered = list(top.delivered)
+      # sim_tick ends with the combinational phase of the NEXT cycle: a transfer enabled there is already visible to the consumer
+      accepted = [0x100 + i for i in range(int(top.p.cnt) + int(top.p.send.en))]
+    sh.count("mixed_system_runs"); sh.count("evaluations"); sh.count("mixed_messages_delivered", len(delivered))
+    sh.fp("mixed", shape, kind, n, tuple(stall))
+    ctx = {"shape": shape, "queue": kind, "entries": n, "stall_pattern": stall, "cycles": ncyc,
+           "accepted": [hex(x) for x in accepted[:24]], "delivered": [hex(x) for x in delivered[:24]]}
+    if delivered != accepted[:len(delivered)]:
+      k = next((i for i, (a, b) in enumerate(zip(delivered, accepted)) if a != b), min(len(delivered), len(accepted)))
+      ctx.update(first_difference_at=k, accepted_there=[hex(x) for x in accepted[max(0, k - 2):k + 3]],
+                 delivered_there=[hex(x) for x in delivered[max(0, k - 2):k + 3]], n_accepted=len(accepted), n_delivered=len(delivered))
+      sh.violation("system-delivers-other-messages-than-were-accepted", ctx, case=("mixed", case)); return
+    if len(accepted) - len(delivered) > n + 2:
+      sh.violation("more-messages-in-flight-than-queue-and-adapter-can-hold", ctx, case=("mixed", case)); return
+    if len(accepted) < 3:
+      sh.inconclusive("mixed-system-made-no-progress")
+  except Exception:
+    sh.violation("mixed-system-raised", {"shape": shape, "queue": kind, "entries": n, "error": traceback.format_exc()[-600:]}, case=("mixed", case))
+  finally:
+    G.unload(mod)
+
+
 def run_shard(sh):
   cfg = sh.params
+  for case in range(3 if sh.tier == "quick" else 30):
+    run_mixed(sh, cfg["cfg_idx"] * 100 + case)
   rng = sh.rng("cfg", cfg["cfg_idx"])
   states = None
   if cfg["style"] != "cl":
